@@ -341,7 +341,7 @@ def sanitizer_keys(err):
         elif 'load of value' in msg:
             kind = 'invalid-load'
         else:
-            kind = re.sub(r'[^a-z]+', '-', msg.lower())[:30]
+            kind = re.sub(r'[^a-z]+', '-', re.sub(r'0x[0-9a-f]+', '', msg.lower()))[:40].strip('-')
         f, fn = _first_repo_frame(block)
         if f == '?':
             f = os.path.basename(path)
